@@ -51,6 +51,7 @@ typedef AssociationDAGlobalGraphObserver<std::string, unsigned int> DagObs;
 static const int NPOOL = 16; // edge objects 1..16
 static long g_scen = 0;
 static bool g_everyRoot = false;
+static unsigned long g_calls = 0;
 
 struct Flags
 {
@@ -125,12 +126,13 @@ template<class ObsT, bool IsTree> struct Harness
     auto g = co.getGraph();
     nodes.clear();
     edges.clear();
+    root = static_cast<long>(g->getRoot());
     if (IsTree)
     {
       d = g->isDirected();
-      root = static_cast<long>(g->getRoot());
-      s.kv("d", d).kv("root", root);
+      s.kv("d", d);
     }
+    s.kv("root", root);
     std::vector<Graph::NodeId> ns = g->getAllNodes();
     s.kv("n", arrU(ns));
     Arr ae, ao, ai, aeo, aoe;
@@ -326,7 +328,19 @@ struct TreeH : Harness<TreeObs, true>
 {
   void setFather(long n, long f, long o) { ev("SetFather", Arr().add(n).add(f).add(o), call([&]() { obs->setFather(nobj(n), nobj(f), eobj(o)); })); }
   void setRoot(long r) { ev("SetRoot", Arr().add(r), call([&]() { obs->setRoot(nobj(r)); })); }
-  void rootAt(long r) { ev("RootAt", Arr().add(r), call([&]() { obs->rootAt(nobj(r)); })); }
+  // through the observer (by node object) or on the graph itself (by id): an absent id only
+  // reaches TreeGraphImpl::rootAt the second way (the observer refuses the unknown object first)
+  void rootAt(long r, int viaGraph = -1)
+  {
+    bool g = viaGraph >= 0 ? viaGraph != 0 : (!hasNode(r) ? (g_calls++ % 4 != 0) : (g_calls++ % 3 == 0));
+    Obj o;
+    o.kv("e", "RootAt").kv("a", Arr().add(r)).kv("via", g ? "graph" : "observer");
+    o.kv("r", call([&]() {
+      if (g && r >= 0) obs->getGraph()->rootAt(static_cast<Graph::NodeId>(r));
+      else obs->rootAt(nobj(r));
+    }));
+    emit(o);
+  }
   void unRoot(bool join) { ev("UnRoot", Arr().add(join), call([&]() { obs->getGraph()->unRoot(join); })); }
   void qRooted()
   {
@@ -706,7 +720,17 @@ struct DagH : Harness<DagObs, false>
     std::string r = call([&]() { v = const_cast<const DagObs&>(*obs).isRooted(); });
     ev("QRooted", Arr(), r == "ok" ? (v ? "RT" : "RF") : r);
   }
-  void rootAt(long r) { ev("RootAt", Arr().add(r), call([&]() { obs->rootAt(nobj(r)); })); }
+  void rootAt(long r)
+  {
+    bool g = !hasNode(r) ? (g_calls++ % 4 != 0) : (g_calls++ % 3 == 0);
+    Obj o;
+    o.kv("e", "RootAt").kv("a", Arr().add(r)).kv("via", g ? "graph" : "observer");
+    o.kv("r", call([&]() {
+      if (g && r >= 0) obs->getGraph()->rootAt(static_cast<Graph::NodeId>(r));
+      else obs->rootAt(nobj(r));
+    }));
+    emit(o);
+  }
   // can the graph hang from r at all?  connected and simple when read without directions
   bool orientable(long r) const
   {
@@ -1066,7 +1090,7 @@ static void modeHist(size_t count, size_t len, size_t maxNodes, vt::Rng& rng)
 // Each edit kind is tried with the cache filled by isValid(), by getSubtreeNodes(), or left empty.
 static void modeCacheWalk(size_t count, vt::Rng& rng)
 {
-  const int KINDS = 25;
+  const int KINDS = 27;
   for (size_t k = 0; k < count; ++k)
   {
     size_t n = 2 + rng.below(5);
@@ -1142,9 +1166,36 @@ static void modeCacheWalk(size_t count, vt::Rng& rng)
         case 19: h.rootAt(absent); break;
         case 20: h.setRoot(absent); break;
         case 21: h.link(a, b, usedObj); break; // an object that is already attached (or none)
+        case 24:
+        case 25:
+        { // a leaf is deleted and then (by mistake) chosen as the new root, on the graph itself: refused, and
+          // the tree must go on living - same root, same answers, further edits and re-rootings work
+          if (und && !F.uedit) break;
+          std::vector<unsigned> leaves;
+          for (auto x : h.nodes)
+            if (h.outOf(x, true).empty() && (long)x != h.root) leaves.push_back(x);
+          long dead = absent;
+          if (!leaves.empty() && kd == 24)
+          {
+            dead = leaves[rng.below(leaves.size())];
+            h.deleteNode(dead);
+            if (rng.coin()) h.qValid();
+          }
+          h.rootAt(dead, 1);
+          h.qValid();
+          if (!h.nodes.empty())
+          {
+            long nn = h.createNode();
+            h.addSon(h.nodes[rng.below(h.nodes.size())], nn, 0);
+            h.qValid();
+            if (h.d || !h.looksTree()) h.qSub(h.nodes[rng.below(h.nodes.size())]);
+            if (!und || F.unroot) h.rootAt(h.nodes[rng.below(h.nodes.size())], static_cast<int>(rng.below(2)));
+          }
+          break;
+        }
         case 22: if (F.outgroup) h.setOutGroup(a); break;
         case 23: if (F.outgroup) h.setOutGroup(h.root); break; // refused: the root has no father
-        default: if (!und || F.uedit) h.removeSons(a); break;
+        default: if (!und || F.uedit) h.removeSons(a); break; // 26
         }
         // first query after the edit: validity, or a guarded structural query
         if (rng.chance(1, 3) && !h.nodes.empty() && (h.d || !h.looksTree())) h.qSub(h.nodes[rng.below(h.nodes.size())]);
